@@ -32,11 +32,15 @@ def canon(g):
                     sort_keys=True, separators=(",", ":"))
 
 
-def observe(g, reverse=False, maxq=3):
-  b = tgraph.Built(g)
+def observe(g, reverse=False, maxq=3, fresh=False):
+  """All queries on the real solver.  fresh: a newly built Program for every query (the pure
+  reading of C07); otherwise one Program answers all queries in (reversed) canonical order."""
   qs = tgraph.all_queries(g, maxq)
   if reverse:
     qs = qs[::-1]
+  if fresh:
+    return [[n, G, bool(tgraph.Built(g).has(n, G))] for n, G in qs]
+  b = tgraph.Built(g)
   return [[n, G, bool(b.has(n, G))] for n, G in qs]
 
 
@@ -60,13 +64,13 @@ def nontrivial(g):
   return bool(g["edges"]) and any(o["ss"] for o in g["origins"])
 
 
-def judge(run, graphs, label):
+def judge(run, graphs, label, fresh=False):
   """Observe all graphs on the real solver and let TLC judge.  Returns #validated."""
   cases = []
   for k, g in enumerate(graphs):
     if g["nn"] == 0 or not g["bvar"]:
       continue
-    cases.append({"g": g, "qs": observe(g, reverse=bool(k % 2))})
+    cases.append({"g": g, "qs": observe(g, reverse=bool(k % 2), fresh=fresh)})
   if not cases:
     return 0
   nq = sum(len(c["qs"]) for c in cases)
@@ -160,6 +164,11 @@ def main():
     print("  [%s] %d graphs, t=%.0fs" % (label, len(graphs), __import__("time").time() - run.t0), flush=True)
     run.sample({"family": label, "graph": json.loads(canon(graphs[len(graphs) // 2]))})
   run.put("exhaustive", True)
+  # 2b. the committed known-finding probes (specific inputs that are known to fail)
+  with open(os.path.join(common.VERIF, "fixtures", "c07_known_cases.json")) as f:
+    probes = [c["graph"] for c in json.load(f)]
+  total += judge(run, probes + probes, "known-probes")   # both query orders
+  total += judge(run, probes, "known-probes-fresh", fresh=True)
   # 3. larger random graphs from the spec (tlc -simulate), cyclic and conditioned included
   sims = [
       ("sim-acyclic", dict(MaxNodes=6, MaxVars=3, MaxBindings=5, MaxOrigins=7, MaxSS=2, MaxOps=24)),
@@ -168,7 +177,7 @@ def main():
       ("sim-acyclic-cond", dict(MaxNodes=7, MaxVars=3, MaxBindings=5, MaxOrigins=6, MaxSS=2,
                                 MaxOps=26, UseCond="TRUE", OrderedEdges="TRUE")),
   ]
-  nsim = 400 if thorough else 30
+  nsim = 12000 if thorough else 700
   for k, (label, kw) in enumerate(sims):
     r = tlc.run("Typegraph", T(ExportMode='"final"', INVARIANTS=["ExportInv"], **kw),
                 workers=1, timeout=3000, seed=run.seed * 10 + k, simulate="num=%d" % nsim,
@@ -179,9 +188,9 @@ def main():
       if c not in seen:
         seen.add(c)
         graphs.append(g)
-    common.require(len(graphs) > nsim, "simulation %s produced %d graphs" % (label, len(graphs)))
+    common.require(len(graphs) > nsim // 2, "simulation %s produced %d graphs" % (label, len(graphs)))
     run.put("graphs_" + label, len(graphs))
-    total += judge(run, graphs, label)
+    total += judge(run, graphs, label, fresh=True)
     run.sample({"family": label, "graph": json.loads(canon(graphs[0]))})
   run.put("traces_validated_against_impl", total)
   run.put("evaluations", total)
@@ -194,7 +203,7 @@ def main():
                  run.cov["queries"] - run.cov["answers_true"] > 1000,
                  "vacuity: answers are not mixed")
   run.assumptions += ["P2 is judged on acyclic conditioned graphs; on cyclic graphs only P3/P4 are verdicts",
-                      "graphs are built in canonical order; odd-numbered cases ask the queries in reverse order"]
+                      "exhaustive families: one Program per graph answers all queries (odd-numbered cases in reverse order); simulated graphs and probes: a fresh Program per query"]
   return run.finish()
 
 
